@@ -62,11 +62,34 @@ def sched_facts():
     t = a1.body[1]
     assert ast.unparse(t.body[0]) == 'yield slot' and len(t.finalbody) == 1 and ast.unparse(t.finalbody[0]) == 'self._slots.put_nowait(slot)' and not t.handlers
     a2 = pyast.find_func(R, '_acquire_slot_threadsafe')
-    assert ast.unparse(a2.body[0]) == 'slot = asyncio.run_coroutine_threadsafe(self._slots.get(), loop).result()'
+    assert ast.unparse(a2.body[0]) == 'slot = self._run_coroutine_threadsafe(self._slots.get(), loop=loop)'
     t = a2.body[1]
     assert isinstance(t, ast.Try) and ast.unparse(t.body[0]) == 'yield slot' and len(t.finalbody) == 1 \
         and ast.unparse(t.finalbody[0]) == 'loop.call_soon_threadsafe(self._slots.put_nowait, slot)' and not t.handlers
     out.append('Definition fact_slot_released_in_finally : bool := true.')
+    # 3b. a worker thread hands its coroutine to the loop and waits for it - but never for a loop that has been closed: the wait is
+    #     a loop of bounded waits that gives up only when the future is done (its own outcome) or the loop is closed
+    rc = pyast.find_func(R, '_run_coroutine_threadsafe')
+    assert ast.unparse(rc.body[0]) == 'future = asyncio.run_coroutine_threadsafe(coroutine, loop)'
+    loops_ = [n for n in rc.body if isinstance(n, ast.While)]
+    assert len(loops_) == 1 and ast.unparse(loops_[0].test) == 'True' and len(loops_[0].body) == 1 and isinstance(loops_[0].body[0], ast.Try)
+    tr_ = loops_[0].body[0]
+    assert len(tr_.body) == 1 and isinstance(tr_.body[0], ast.Return) and ast.unparse(tr_.body[0].value.func) == 'future.result' \
+        and [k.arg for k in tr_.body[0].value.keywords] == ['timeout'], 'bounded wait expected'
+    assert len(tr_.handlers) == 1 and ast.unparse(tr_.handlers[0].type) == 'concurrent.futures.TimeoutError'
+    hb = tr_.handlers[0].body
+    assert len(hb) == 2 and all(isinstance(x, ast.If) for x in hb)
+    assert ast.unparse(hb[0].test) == 'future.done()' and isinstance(hb[0].body[0], ast.Raise) and hb[0].body[0].exc is None
+    assert ast.unparse(hb[1].test) == 'loop.is_closed()' and isinstance(hb[1].body[-1], ast.Raise) and not hb[1].orelse
+    for fn in ('_maybe_run_coroutine_threadsafe',):
+        src_ = _ws(ast.unparse(pyast.find_func(R, fn)))
+        assert 'run_coroutine_threadsafe(func(*args, **kwargs), loop=loop)' in src_ and '.result()' not in src_
+    # no other place blocks on a future of the loop without this guard
+    for n in ast.walk(R):
+        if isinstance(n, ast.Call) and ast.unparse(n.func) == 'asyncio.run_coroutine_threadsafe':
+            owner = [f for f in ast.walk(R) if isinstance(f, (ast.FunctionDef, ast.AsyncFunctionDef)) and n in ast.walk(f)]
+            assert any(f.name == '_run_coroutine_threadsafe' for f in owner), f'unguarded run_coroutine_threadsafe at line {n.lineno}'
+    out.append('Definition fact_threads_never_wait_for_a_closed_loop : bool := true.')
     # 4. exactly `concurrent` tokens
     init = _ws(ast.unparse(pyast.find_func(R, '__init__')))
     assert 'self._slots = asyncio.PriorityQueue(maxsize=concurrent)' in init
